@@ -69,9 +69,17 @@ func genC02(r *simrt.Rand, tier string, idx uint64) *Plan {
 	}
 	for i := range p.Conns {
 		p.Conns[i].DirectSet = genDirectSet(r)
+		if r.Chance(1, 3) {
+			p.Conns[i].DirectSet = 2 // unbuffered: a failing socket write is reported to send()
+		}
 	}
 	if idx%3 == 0 {
 		p.Sim.Starve = "rpc.Conn.Dial" // the connection reader only runs when nothing else can
+	}
+	if idx%4 == 1 {
+		// a write that reports failure although the frame was delivered: the response can
+		// complete the call before the write-error path runs
+		p.Net.LateWriteErr = []int{30, 150, 500}[r.Intn(3)]
 	}
 	nclients := 1 + r.Intn(4)
 	for c := 0; c < nclients; c++ {
@@ -402,7 +410,9 @@ func genC05(r *simrt.Rand, tier string, idx uint64) *Plan {
 			n := 2 + r.Intn(10)
 			for i := 0; i < n; i++ {
 				op := Op{Kind: "gos", Shape: r.Intn(4), Size: genSize(r, &big), Rep: genSize(r, &big), CtxBuf: -1}
-				if r.Chance(1, 3) {
+				if r.Chance(1, 8) {
+					op.Bad = []string{"method", "args"}[r.Intn(2)] // rejected before any handler runs
+				} else if r.Chance(1, 3) {
 					op.Flags |= FlFail
 					op.Arg = uint32(1 + r.Intn(40))
 				} else if r.Chance(1, 2) {
